@@ -307,7 +307,13 @@ fn typecheck_packages(
             let artifact = artifacts_by_name
                 .get(dep)
                 .ok_or_else(|| compile_error(format!("missing package artifact for {}", dep)))?;
-            deps_envs.insert(dep.clone(), artifact.interface.exports.to_genv());
+            deps_envs.insert(
+                dep.clone(),
+                artifact
+                    .interface
+                    .exports
+                    .to_dep_env(dep, &artifact.interface.hir_interface),
+            );
             deps_interfaces.insert(dep.clone(), artifact.interface.hir_interface.clone());
         }
 
@@ -517,7 +523,10 @@ pub fn typecheck_with_packages_and_results(
             let interface = artifacts_by_name
                 .get(dep)
                 .ok_or_else(|| compile_error(format!("missing package artifact for {}", dep)))?;
-            deps_envs.insert(dep.clone(), interface.exports.to_genv());
+            deps_envs.insert(
+                dep.clone(),
+                interface.exports.to_dep_env(dep, &interface.hir_interface),
+            );
             deps_interfaces.insert(dep.clone(), interface.hir_interface.clone());
         }
 
